@@ -243,6 +243,11 @@ def check_cash(case, ctx):
         else:
             want_mp = ce_exact(c, col)
             want = float(want_mp)
+            if c["kind"] == "oce_exp" and c.get("w"):
+                # conditioning of the search: the criterion of a constant, w + exp(-a (c + w)), is resolved to eps * (|w| + e)
+                # while its slope is only a * e (e = exp(-a (c + w))): the certainty equivalent is resolved to eps (|w| + e) / (a e)
+                e_ = math.exp(-a * (want + c["w"]))
+                tol = tol + 4 * eps * (abs(c["w"]) + e_) / (a * e_)
             ctx.check(abs(g - want) <= tol, "C06/cash/certainty-equivalent",
                       f"{c['kind']} cash {g!r} but certainty equivalent {want!r} (tol {tol:.2e})", column=j)
         if c["kind"] in RISK_AVERSE:
@@ -323,6 +328,24 @@ def check_price(case, ctx):
             kw["init_state"] = init
         return hedger.price(deriv, hedge=hedge, n_paths=n, **kw)
 
+    def samples_finite(k_):
+        """Replays the k_ consecutive simulations price() makes under this seed: are all P&L samples finite?  (A hedge of NaN
+        on a zero-variance step - known findings K3 / K3-hedger - or a rate that touched zero under a ratio payoff gives a
+        non-finite sample, which no criterion accepts; such cases are outside the statement and counted as skipped.)"""
+        torch.manual_seed(seed)
+        ok = True
+        with torch.no_grad():
+            for _ in range(k_):
+                deriv.simulate(n_paths=n, **({"init_state": init} if init is not None else {}))
+                smp = hedger.compute_portfolio(deriv, hedge=hedge) - deriv.payoff()
+                ok = ok and bool(torch.isfinite(smp).all())
+        return ok
+
+    with ctx.sut("C06/price/simulate"):
+        finite1 = samples_finite(1)
+    if not finite1:
+        ctx.cls("skipped:non-finite-sample")
+        return
     with ctx.sut("C06/price"):
         p0 = price()
         with torch.no_grad():
@@ -368,6 +391,11 @@ def check_price(case, ctx):
         ctx.check(abs(float(l0) - g) <= 16 * eps * (1 + abs(g)), "C06/price/equals-entropic-loss", f"price {g!r} != loss {float(l0)!r}")
     # (d) n_times averages consecutive evaluations of the same RNG stream
     k = case["n_times"]
+    with ctx.sut("C06/price/simulate"):
+        finite_k = samples_finite(k)
+    if not finite_k:
+        ctx.cls("skipped:non-finite-sample-in-later-batch")
+        return
     with ctx.sut("C06/price/n_times"):
         pk = price(n_times=k)
         torch.manual_seed(seed)
@@ -387,6 +415,23 @@ def check_price(case, ctx):
     ctx.nontrivial(hi > lo and bool((hedger.compute_hedge(deriv, hedge=hedge) != 0).any()))
     ctx.cls("crit:" + c["kind"], "model:" + case["model"], "deriv:" + case["deriv"]["type"], "hedge:" + case["hedge"])
 
+
+def known_k5(case, violation) -> bool:
+    """K5 (same root cause as in C04/C05): QuadraticCVaR.cash = -quadratic_cvar raises the max_iter RuntimeError for a float32
+    sample whose range is below the resolution of float32 at its level (e.g. a constant): the derived bisection precision is unreachable."""
+    if violation["label"] != "C06/cash/raises" or "max_iter" not in (violation.get("msg") or violation.get("message") or ""):
+        return False
+    if case.get("crit", {}).get("kind") != "qcvar" or case.get("dtype") != "float32":
+        return False
+    x = torch.tensor(case["data"], dtype=torch.float32)
+    if case.get("target") is not None:
+        x = x - torch.as_tensor(case["target"], dtype=torch.float32)
+    flat = x.reshape(x.shape[0], -1)
+    rng = flat.max(0).values - flat.min(0).values
+    return bool((rng <= 8 * EPS["float32"] * flat.abs().max(0).values).any())
+
+
+KNOWN = {"K5": known_k5}
 
 META = {
     "technique": "property-based testing: Hypothesis-generated samples/criteria/hedging scenarios vs mpmath certainty equivalents, exact order statistics and metamorphic relations (shift, n_times, loss==price)",
